@@ -61,11 +61,27 @@ def unbits(k):
 
 
 class BitCoder(T.Coder):
-    def val(self, v):
-        return bits(v)
+    """matrix values as small opaque codes: 0.0 -> 0, every other double (by bit pattern) -> its rank
+    among the values that occur anywhere in the case (the model only moves values and tests for zero)"""
 
-    def unval(self, k):
-        return unbits(k)
+    def __init__(self, universe, values=()):
+        T.Coder.__init__(self, universe)
+        keys = sorted({bits(v) for v in values} - {0})
+        self.vcode = {k: n + 1 for n, k in enumerate(keys)}
+        self.vback = {n: k for k, n in self.vcode.items()}
+
+    def val(self, v):
+        k = bits(v)
+        if k == 0:
+            return 0
+        if k not in self.vcode:
+            n = len(self.vcode) + 1
+            self.vcode[k] = n
+            self.vback[n] = k
+        return self.vcode[k]
+
+    def unval(self, n):
+        return 0.0 if n == 0 else unbits(self.vback[n])
 
 
 # ---------------------------------------------------------------- coherence oracle on the live table
@@ -116,7 +132,7 @@ def coherence_failures(t):
             f.append('iter(%s) = %s, matrix says %s' % (ax, it, want))
         s = np.asarray(t.sum(ax), dtype=float).ravel().tolist()
         want = (D.sum(axis=1) if ax == 'observation' else D.sum(axis=0)).tolist()
-        if not np.allclose(s, want, rtol=1e-12, atol=0):
+        if not np.allclose(s, want, rtol=1e-12, atol=0, equal_nan=True):
             f.append('sum(%s) = %s, matrix says %s' % (ax, s, want))
         if len(ids) <= 3:
             pw = [(str(a[1]), str(b[1]), np.asarray(a[0]).ravel().tolist(), np.asarray(b[0]).ravel().tolist())
@@ -133,7 +149,7 @@ def coherence_failures(t):
     want = [(oids[n], sids[k]) for n in range(len(oids)) for k in range(len(sids)) if D[n, k] != 0]
     if sorted(nz) != sorted(want) or len(nz) != len(want):
         f.append('nonzero() = %s, matrix says %s' % (nz, want))
-    if not np.isclose(float(t.sum('whole')), D.sum(), rtol=1e-12, atol=0):
+    if not np.isclose(float(t.sum('whole')), D.sum(), rtol=1e-12, atol=0, equal_nan=True):
         f.append('sum(whole) = %r, matrix says %r' % (float(t.sum('whole')), D.sum()))
     cnt = int((D != 0).sum())
     if t.nnz != cnt:
@@ -234,6 +250,9 @@ def apply_op(t, op, aux, rec):
         if name == 'transform':
             r = t.transform(TRANSFORMS[op[2]], axis=ax, inplace=op[3])
         elif name == 'norm':
+            if (t.matrix_data.data < 0).any():      # norm is defined for non-negative tables only (C13 domain)
+                rec.update(op=[99])
+                return t
             r = t.norm(axis=ax, inplace=op[2])
         elif name == 'pa':
             r = t.pa(inplace=op[2])
@@ -305,6 +324,7 @@ def _run(c):
             entry = ['err', T.err_code(e), after, coherence_failures(t), canon(after) == canon(before)]
             rec['after'] = after
             rec['err'] = True
+            rec['code'] = T.err_code(e)
             recs.append(rec)
             out.append(entry)
             continue
@@ -321,6 +341,18 @@ def _run(c):
 
 
 # ---------------------------------------------------------------- wire
+def _values(c, recs):
+    vs = [v for sp in [c['start']] + c['aux'] for row in sp['mat'] for v in row]
+    for r in recs:
+        for k in ('after', 'receiver_after'):
+            if k in r:
+                vs += [v for row in r[k]['mat'] for v in row]
+        op = r.get('op', [])
+        if op and op[0] in (11, 12):
+            vs += [v for row in op[1]['mat'] for v in row]
+    return vs
+
+
 def _universe(c, recs):
     u = T.spec_universe(c['start'], *c['aux']) + ['nope', 'same', 'zzz']
     for r in recs:
@@ -339,13 +371,13 @@ def _universe(c, recs):
 
 def encode(c):
     recs = _STASH.get(jhash(c), [])
-    cd = BitCoder(_universe(c, recs))
+    cd = BitCoder(_universe(c, recs), _values(c, recs))
     ops = []
     for r in recs:
         op = r.get('op', [99])
         k = op[0]
         if r.get('err') and k in (8, 9, 10, 99):
-            ops.append([99])           # refused by the implementation before the model has data: no-op
+            ops.append([98, r.get('code', 9)])   # refused by the implementation before the model has data
         elif k == 0:
             ops.append([0, [cd.id(i) for i in op[1]], int(op[2]), op[3]])
         elif k == 1:
@@ -361,6 +393,8 @@ def encode(c):
         elif k == 8:
             tb = cd.table(r['after'])
             ops.append([8, op[1], tb[3], tb[4]])
+        elif k == 99:
+            ops.append([99])
         elif k == 9:
             ops.append([9, cd.table(r['after'])[2]])
         elif k == 10:
@@ -374,7 +408,7 @@ def encode(c):
 
 def decode(tree, c):
     recs = _STASH.get(jhash(c), [])
-    cd = BitCoder(_universe(c, recs))
+    cd = BitCoder(_universe(c, recs), _values(c, recs))
     out = []
     for n, e in enumerate(tree):
         snap = T.norm_snap(cd.untable(e[1]))
